@@ -94,56 +94,60 @@ def parseMode : String → Option (Option GenMode)
   | "half" => some none
   | _ => none
 
-def runGen (m : Option GenMode) (ps : Pset) (mn mx τ : Nat) (tp : Tape) : Option (List Prim × Tape) :=
+def runGen (m : Option GenMode) (ps : Pset) (mn mx τ : Nat) (tp : Tape) : R (List Prim × Tape) :=
   match m with
   | some .full => genFull ps mn mx τ tp
   | some .grow => genGrow ps mn mx τ tp
   | none => genHalfAndHalf ps mn mx τ tp
 
-def show1 : Option (List Prim × Tape) → String
-  | some (l, tp) => showNodes l ++ " " ++ toString tp.length
-  | none => "none"
+/-- every fault (exception of the code, exhausted / ill-typed tape) answers `none` -/
+def show1 : R (List Prim × Tape) → String
+  | .ok (l, tp) => showNodes l ++ " " ++ toString tp.length
+  | .error _ => "none"
 
-def show2 : Option (List Prim × List Prim × Tape) → String
-  | some (a, b, tp) => showNodes a ++ " " ++ showNodes b ++ " " ++ toString tp.length
-  | none => "none"
+def show2 : R (List Prim × List Prim × Tape) → String
+  | .ok (a, b, tp) => showNodes a ++ " " ++ showNodes b ++ " " ++ toString tp.length
+  | .error _ => "none"
 
-def showMany : Option (List (List Prim) × Tape) → String
-  | some (ls, tp) => " ".intercalate (ls.map showNodes) ++ " " ++ toString tp.length
-  | none => "none"
+def showMany : R (List (List Prim) × Tape) → String
+  | .ok (ls, tp) => " ".intercalate (ls.map showNodes) ++ " " ++ toString tp.length
+  | .error _ => "none"
 
-def lift1 (r : Option (List Prim × Tape)) : Option (List (List Prim) × Tape) := r.map (fun (l, tp) => ([l], tp))
-def lift2 (r : Option (List Prim × List Prim × Tape)) : Option (List (List Prim) × Tape) :=
-  r.map (fun (a, b, tp) => ([a, b], tp))
+def lift1 : R (List Prim × Tape) → R (List (List Prim) × Tape)
+  | .ok (l, tp) => .ok ([l], tp)
+  | .error e => .error e
+def lift2 : R (List Prim × List Prim × Tape) → R (List (List Prim) × Tape)
+  | .ok (a, b, tp) => .ok ([a, b], tp)
+  | .error e => .error e
 
 /-- an operator line (without the tape), as a function of the argument trees and the tape -/
-def parseOp : List String → Option (List (List Prim) × (List (List Prim) → Tape → Option (List (List Prim) × Tape)))
+def parseOp : List String → Option (List (List Prim) × (List (List Prim) → Tape → R (List (List Prim) × Tape)))
   | ["cx", a, b] => do
     let a ← parseNodes a; let b ← parseNodes b
-    some ([a, b], fun args tp => match args with | [x, y] => lift2 (cxOnePoint x y tp) | _ => none)
+    some ([a, b], fun args tp => match args with | [x, y] => lift2 (cxOnePoint x y tp) | _ => .error .raised)
   | ["cxlb", a, b, pb] => do
     let a ← parseNodes a; let b ← parseNodes b; let pb ← parseFloat pb
-    some ([a, b], fun args tp => match args with | [x, y] => lift2 (cxOnePointLeafBiased x y pb tp) | _ => none)
+    some ([a, b], fun args tp => match args with | [x, y] => lift2 (cxOnePointLeafBiased x y pb tp) | _ => .error .raised)
   | ["mutu", s, p, t, r, tc, pc, ind, mode, mn, mx] => do
     let ps ← parsePset s p t r tc pc
     let ind ← parseNodes ind; let m ← parseMode mode; let mn ← parseNat mn; let mx ← parseNat mx
     some ([ind], fun args tp => match args with
-      | [x] => lift1 (mutUniform x (fun τ tp => runGen m ps mn mx τ tp) tp) | _ => none)
+      | [x] => lift1 (mutUniform x (fun τ tp => runGen m ps mn mx τ tp) tp) | _ => .error .raised)
   | ["mutn", s, p, t, r, tc, pc, ind] => do
     let ps ← parsePset s p t r tc pc
     let ind ← parseNodes ind
-    some ([ind], fun args tp => match args with | [x] => lift1 (mutNodeReplacement x ps tp) | _ => none)
+    some ([ind], fun args tp => match args with | [x] => lift1 (mutNodeReplacement x ps tp) | _ => .error .raised)
   | ["mute", ind, mode] => do
     let ind ← parseNodes ind
     let one ← if mode = "one" then some true else if mode = "all" then some false else none
-    some ([ind], fun args tp => match args with | [x] => lift1 (mutEphemeral x one tp) | _ => none)
+    some ([ind], fun args tp => match args with | [x] => lift1 (mutEphemeral x one tp) | _ => .error .raised)
   | ["muti", s, p, t, r, tc, pc, ind] => do
     let ps ← parsePset s p t r tc pc
     let ind ← parseNodes ind
-    some ([ind], fun args tp => match args with | [x] => lift1 (mutInsert x ps tp) | _ => none)
+    some ([ind], fun args tp => match args with | [x] => lift1 (mutInsert x ps tp) | _ => .error .raised)
   | ["muts", ind] => do
     let ind ← parseNodes ind
-    some ([ind], fun args tp => match args with | [x] => lift1 (mutShrink x tp) | _ => none)
+    some ([ind], fun args tp => match args with | [x] => lift1 (mutShrink x tp) | _ => .error .raised)
   | _ => none
 
 def parseKey : String → Option (List Prim → Option Nat)
